@@ -108,6 +108,10 @@ func genV(rt *rapid.T, t T) V {
 }
 
 func genCase(rt *rapid.T) *Case {
+	if rapid.IntRange(0, 1499).Draw(rt, "longloc") == 0 {
+		return &Case{Long: rapid.SampledFrom([]int{1, 50, 5000, 9998, 9999, 10000, 10001, 100000, 2000000}).Draw(rt, "longn"), LongSeg: rapid.SampledFrom([]string{"n", "n", "ns"}).Draw(rt, "longseg"),
+			Locator: rapid.SampledFrom([]string{"name", "name", "nope", "n"}).Draw(rt, "longtail")}
+	}
 	if rapid.IntRange(0, 9).Draw(rt, "exotic") == 0 {
 		return &Case{Exotic: 1 + rapid.IntRange(0, len(exotics())-1).Draw(rt, "ex"), Locator: rapid.SampledFrom(ExoticLocators).Draw(rt, "xloc")}
 	}
@@ -197,6 +201,11 @@ func TestC11(t *testing.T) {
 			if f := one(&Case{Exotic: i + 1, Locator: loc}); f != "" {
 				t.Fatalf("exotic: %s", f)
 			}
+		}
+	}
+	for _, n := range []int{1, 1000, 2000000} {
+		if f := one(&Case{Long: n, LongSeg: "n", Locator: "name"}); f != "" {
+			t.Fatalf("long locator: %s", f)
 		}
 	}
 	for _, sc := range TwinScenarios {
